@@ -83,6 +83,20 @@ func (g *Gen) header(cexArrays []string, body string) string {
 				fmt.Fprintf(&b, "(assert (forall ((wfp Int)) (! (<= (sl-ref (select %s wfp)) %s) :pattern ((select %s wfp)))))\n", n, al, n)
 			case "(Array Int (Array Int Slice))":
 				fmt.Fprintf(&b, "(assert (forall ((wfp Int) (wfi Int)) (! (<= (sl-ref (select (select %s wfp) wfi)) %s) :pattern ((select (select %s wfp) wfi)))))\n", n, al, n)
+			default:
+				// arrays of structs with slice-typed fields: H_<struct sort>
+				srt := g.epochs[n]
+				const pre = "(Array Int (Array Int "
+				if strings.HasPrefix(srt, pre) && strings.HasSuffix(srt, "))") {
+					ss := srt[len(pre) : len(srt)-2]
+					if st, ok := g.m.structs[ss]; ok && !g.m.opaque[ss] {
+						for fi := 0; fi < st.NumFields(); fi++ {
+							if g.m.sortOf(st.Field(fi).Type()) == "Slice" {
+								fmt.Fprintf(&b, "(assert (forall ((wfp Int) (wfi Int)) (! (<= (sl-ref (%s.%s (select (select %s wfp) wfi))) %s) :pattern ((select (select %s wfp) wfi)))))\n", ss, fieldName(st, fi), n, al, n)
+							}
+						}
+					}
+				}
 			}
 		}
 	}
